@@ -102,7 +102,16 @@ class Check:
         # VERIF_RUNTAG: a side run (seeded-mutant runs, concurrent development) that must not
         # disturb the registered run's scratch directory, evidence file or replays
         self.tag = os.environ.get('VERIF_RUNTAG', '')
-        self.rundir = os.path.join(VERIF, '.run', pid + self.tag)
+        # one scratch directory per process, so that two runs of the same check never share files;
+        # directories left by finished runs of the same check are removed here
+        base = os.path.join(VERIF, '.run')
+        os.makedirs(base, exist_ok=True)
+        prefix = pid + self.tag + '.'
+        for d in os.listdir(base):
+            if d.startswith(prefix) and d[len(prefix):].isdigit() and not os.path.exists(f'/proc/{d[len(prefix):]}'):
+                shutil.rmtree(os.path.join(base, d), ignore_errors=True)
+        shutil.rmtree(os.path.join(base, pid + self.tag), ignore_errors=True)      # layout of earlier versions
+        self.rundir = os.path.join(base, prefix + str(os.getpid()))
         shutil.rmtree(self.rundir, ignore_errors=True)
         os.makedirs(self.rundir, exist_ok=True)
         os.makedirs(os.path.join(VERIF, 'evidence'), exist_ok=True)
